@@ -28,10 +28,9 @@
 
   NOT PROVED (validated on every case by the oracle of tools/props/c13.py)
   * "ear clipping succeeds on every simple polygon in general position" (two-ears theorem; not in Mathlib);
-  * that the map surgery realises exactly the triangles of `earclipTriangles` / `fanTriangles` (n−2 triangular
-    faces with the intended corner darts, β2 across the sides unchanged, other faces untouched) and preserves
-    well-formedness through the sew loops;
-  * coordinates unchanged (vertex data only moves through `avg v v = v` and the final `write_vertex`);
+  * (now proved elsewhere: WF and exact face structure in C13b.lean / C13c.lean; for the two FAN kernels, that the
+    triangles of the result map carry the coordinates of `fanTriangles` and that all other coordinates are unchanged,
+    in C13d.lean.)  Still open: the same coordinate tie for ear clipping (`earclipTriangles`);
   * the orientation of the LAST triangle left by ear clipping (the code does not test it);
   * the clockwise twin of `C13_fan_accepts_convex_ccw`.
 -/
